@@ -33,7 +33,7 @@ Definition half : Qc := Q2Qc (1 # 2).
 Definition jitter : Qc := Q2Qc (1 # 1000).
 Definition prec_hi : Qc := qofZ 1000000.
 
-Fixpoint set_nth {A} (i : nat) (x : A) (l : list A) : list A :=
+Fixpoint set_nth {A} (i : nat) (x : A) (l : list A) {struct l} : list A :=
   match l with
   | [] => []
   | a :: r => match i with O => x :: r | S j => a :: set_nth j x r end
